@@ -95,6 +95,8 @@ Module F64.
   Definition sub (x y : f64) : f64 := BinarySingleNaN.Bminus mode_NE x y.
   Definition mul (x y : f64) : f64 := BinarySingleNaN.Bmult mode_NE x y.
   Definition div (x y : f64) : f64 := BinarySingleNaN.Bdiv mode_NE x y.
+  Definition sqrt (x : f64) : f64 := BinarySingleNaN.Bsqrt mode_NE x.
+  Definition zero : f64 := BinarySingleNaN.B754_zero false.
   Definition floor (x : f64) : f64 := BinarySingleNaN.Bnearbyint mode_DN x.
   Definition ceil (x : f64) : f64 := BinarySingleNaN.Bnearbyint mode_UP x.
   Definition is_nan (x : f64) : bool := BinarySingleNaN.is_nan x.
